@@ -11,7 +11,7 @@ DEX mutants get their Adler-32 REPAIRED so that parsing continues past the heade
 Oracle: mc/budget.py: the parse returns or raises within B(n) = 3*10^5 + 300*n + 2*n^2 interpreter events (function
 entries + jumps + branches; valid files need ~10-40 events per byte); exceeding the budget is the deterministic meaning of
 'does not finish in time bounded by the input size'.
-Exploration of one artefact shard stops after 6 runaway mutants (reported as capped, exhaustive=false).
+Exploration of one artefact shard stops after 3 runaway mutants (reported as capped, exhaustive=false).
 """
 import io
 import struct
@@ -40,7 +40,7 @@ MANIFEST = {
     "note": "Trusted: mc/budget.py (sys.monitoring PY_START/JUMP/BRANCH events), the generators for the seed artefacts.",
 }
 
-RUNAWAY_CAP = 6
+RUNAWAY_CAP = 3
 
 
 # ------------------------------------------------------------------------------------------------ artefacts
